@@ -66,8 +66,10 @@ inductive Val where
   | nat (v : Nat) (digits : Bytes) (ps : Pieces)
   /-- `I64(v < 0)`, floats, 128-bit integers, none, undefined: `Display` decides (`ps`) -/
   | display (ps : Pieces)
-  /-- bytes, sequences, maps, iterables, plain objects: `Display` writes `ps` and returns
-      `Err(fmt::Error)` by itself if `selfErr`; `text` = what `to_string()` collects -/
+  /-- bytes, sequences, maps, iterables, plain objects: `Display` writes `ps`; `text` = what
+      `to_string()` collects.  `selfErr`: the object's `render` returns `Err(fmt::Error)` by itself
+      after that — `DynObject::render_guarded` drops such an error (the object renders as what it
+      managed to write) unless the formatter it writes to failed. -/
   | other (ps : Pieces) (selfErr : Bool) (text : Bytes)
   deriving Repr
 
@@ -82,8 +84,7 @@ def htmlOps : Val → List Op
   | .bool b => [strOp (if b then "True".toUTF8.toList else "False".toUTF8.toList)]
   | .str s => if needsHtmlEscaping s then (htmlPieces s).map strOp else [strOp s]
   | .display ps => piecesOps ps
-  -- `HtmlEscape(&value.to_string())`: `to_string` panics if the `Display` impl returns an error
-  | .other _ selfErr text => if selfErr then [.panic] else (htmlPieces text).map strOp
+  | .other _ _ text => (htmlPieces text).map strOp    -- `HtmlEscape(&value.to_string())`
 
 /-- `write!(out, "{value}")` -/
 def displayOps : Val → List Op
@@ -92,7 +93,7 @@ def displayOps : Val → List Op
   | .bool b => [strOp (if b then "True".toUTF8.toList else "False".toUTF8.toList)]
   | .nat _ _ ps => piecesOps ps
   | .display ps => piecesOps ps
-  | .other ps selfErr _ => piecesOps ps ++ (if selfErr then [.fail Err.fromFmt] else [])
+  | .other ps _ _ => piecesOps ps
 
 /-- `Instruction::Emit` with the default formatter: `write_escaped(out, auto_escape, &value)`.
     `jsonText` = what `serde_json::to_string` returns (`none`: serialization fails) -/
